@@ -246,3 +246,142 @@ Example C02_nonvacuous_accept :
   (* `converged` with fx = +inf (the pre-fix behaviour of gd) is not an accepted trace *)
   accept KGd ex_eps [ex_e1; ex_einf] ex_rinf = false /\ valid ex_rinf = false.
 Proof. vm_compute. repeat split; reflexivity. Qed.
+
+(* ==================================================================================================================== *)
+(* Extension: one complete solver body inside the model -- the loop of the line-search solvers (gd.cpp; the common       *)
+(* skeleton of cgd.cpp / lbfgs.cpp / quasi.cpp), model C02_LsLoop_Defs.ls_solver_run = C02_Defs (state, done) composed  *)
+(* with C07_Defs.ls_get (lsearchk_t::get + the five searches). Every theorem quantifies over EVERY oracle record `orc`   *)
+(* (objective as a first-order oracle over points, dot product, direction rule, lsearch0), every configuration with      *)
+(* lsearchk::max_iterations >= 1, every starting point and every amount of fuel.                                        *)
+(* ==================================================================================================================== *)
+From LNGen Require Import Src_c02ls.
+From LN Require Import C02_LsLoop_Defs C02_LsLoop C02_LsLoop_Statements.
+From LN Require C07_Defs C07_Budget.
+
+(* (1) termination within the budget: with fuel > max_evals - 2 the run never ends for lack of fuel (C02_lsloop_fuel: the
+   fuel of ls_minimize is enough); the evaluations performed, in solver_t's unit fcalls + gcalls, are at most
+   max_evals - 1 + (2 * ls_bound + 1): one outer iteration = at most ls_bound probes (C07_evaluations_bounded, 1 fcall +
+   1 gcall each) + one value-only evaluation of lsearch0; as many line searches as half the evaluations; every requested
+   evaluation is counted; the reported counts never exceed the counters of the function *)
+Theorem C02_lsloop_budget : forall orc cfg,
+  0 < C07_Defs.maxit (lc_prm cfg) -> forall fuel x0,
+  let r := ls_solver_run orc cfg fuel x0 in
+  (Z.max 0 (lc_maxev cfg - 2) < Z.of_nat fuel -> lr_exit r <> EX_FUEL) /\
+  2 <= lr_fc r + lr_gc r <=
+    Z.max 2 (lc_maxev cfg - 1 + (2 * C07_Budget.ls_bound (lc_alg cfg) (C07_Defs.maxit (lc_prm cfg)) + 1)) /\
+  0 <= lr_iters r /\ 2 * lr_iters r <= lr_fc r + lr_gc r /\ lr_ne r = lr_fc r /\
+  sfcalls (ls_result cfg r) <= lr_fc r /\ sgcalls (ls_result cfg r) <= lr_gc r.
+Proof. exact lsloop_budget. Qed.
+Print Assumptions C02_lsloop_budget.
+
+Theorem C02_lsloop_fuel : forall cfg, Z.max 0 (lc_maxev cfg - 2) < Z.of_nat (ls_fuel cfg).
+Proof. exact ls_fuel_enough. Qed.
+Print Assumptions C02_lsloop_fuel.
+
+(* (2) C02_triple_honest discharged for this client: the returned (x, fx, gx) is the answer of the oracle to one of the
+   evaluations the run requested, at the returned point *)
+Theorem C02_lsloop_honest : forall orc cfg,
+  0 < C07_Defs.maxit (lc_prm cfg) -> forall fuel x0,
+  let r := ls_solver_run orc cfg fuel x0 in
+  let s := ls_result cfg r in
+  exists k, 0 <= k < lr_ne r /\ o_eval orc k (sx s) = (sfx s, sgx s).
+Proof. exact lsloop_honest. Qed.
+Print Assumptions C02_lsloop_honest.
+
+(* (3) monotone decrease in binary64 with an Armijo-type search (backtrack, lemarechal, fletcher), for every pass through the
+   loop body from ANY run state st: an accepted iterate (iter_ok) whose step is regular -- not negative, and the right-hand
+   side f_k + t*c1*dg_k of state.cpp's Armijo test a finite number (lr_irreg collects the negation over the run) -- has
+   f_{k+1} <= f_k, provided f_k is finite and c1 > 0 *)
+Theorem C02_lsloop_step_decrease : forall orc cfg,
+  0 < C07_Defs.maxit (lc_prm cfg) -> forall st,
+  armijo_type (lc_alg cfg) = true -> PrimFloat.ltb PrimFloat.zero (C07_Defs.c1 (lc_prm cfg)) = true ->
+  let st' := fst (ls_iter orc cfg st) in
+  lr_ok st' = true -> lr_irreg st' = false -> PrimFloat.is_finite (sfx (lr_c st)) = true ->
+  PrimFloat.leb (sfx (lr_c st')) (sfx (lr_c st)) = true.
+Proof. exact iter_decrease. Qed.
+Print Assumptions C02_lsloop_step_decrease.
+
+(* ... hence the clause "the value is not larger than the starting value": whenever no irregular step was accepted, a run
+   that ends with status max_iters, or with status converged after a successful last line search, returns a value <= f(x0) *)
+Theorem C02_lsloop_not_worse : forall orc cfg,
+  0 < C07_Defs.maxit (lc_prm cfg) ->
+  armijo_type (lc_alg cfg) = true -> PrimFloat.ltb PrimFloat.zero (C07_Defs.c1 (lc_prm cfg)) = true ->
+  forall x0 fuel,
+  let r := ls_solver_run orc cfg fuel x0 in
+  let s := ls_result cfg r in
+  lr_irreg r = false ->
+  (sstatus s = ST_MAX_ITERS \/ (sstatus s = ST_CONVERGED /\ lr_ok r = true)) ->
+  PrimFloat.leb (sfx s) (fst (o_eval orc 0 x0)) = true.
+Proof. exact lsloop_not_worse. Qed.
+Print Assumptions C02_lsloop_not_worse.
+
+(* the stronger "unless failed" is FALSE of the faithful model: a FAILED line search (iter_ok = false) whose last trial
+   point passes the gradient test is reported `converged` by solver_t::done, with a value above the start *)
+Theorem C02_lsloop_not_worse_unless_failed_refuted : ~ C02_lsloop_not_worse_unless_failed_full_statement.
+Proof. exact s_lsloop_not_worse_unless_failed_refuted. Qed.
+Print Assumptions C02_lsloop_not_worse_unless_failed_refuted.
+
+(* CG_DESCENT (the default lsearchk) and the slack the property allows: an accepted iterate satisfies Armijo, or the
+   approximate Armijo bound f_k + epsilon*|f_k|, or comes from "bracketing failed" (no acceptance condition evaluated);
+   More-Thuente: see C07_morethuente_success_cases (its own sufficient-decrease bound, or one of four early exits) *)
+Theorem C02_lsloop_cgdescent_slack : forall orc cfg,
+  0 < C07_Defs.maxit (lc_prm cfg) -> forall st, lc_alg cfg = C07_Defs.CGDescent ->
+  let st' := fst (ls_iter orc cfg st) in
+  lr_ok st' = true ->
+  let f0 := sfx (lr_c st) in
+  let f := sfx (lr_c st') in
+  let t := lr_last st' in
+  PrimFloat.leb f (PrimFloat.add f0 (PrimFloat.mul (PrimFloat.mul t (C07_Defs.c1 (lc_prm cfg))) (C07_Defs.pg (it_p0 orc cfg st)))) = true \/
+  PrimFloat.leb f (PrimFloat.add f0 (PrimFloat.mul (C07_Defs.cg_epsilon (lc_prm cfg)) (PrimFloat.abs f0))) = true \/
+  exists iv, C07_Defs.rx (it_r orc cfg st) = C07_Defs.XCG iv true.
+Proof. exact iter_cg_slack. Qed.
+Print Assumptions C02_lsloop_cgdescent_slack.
+
+(* (4) status facts of the returned state: the status is one of the three; `converged` only with a valid state on which the
+   gradient criterion holds; `failed` only for the current state after a failed line search or with an invalid state;
+   `max_iters` only with a valid state, through the budget test (or lack of fuel) or because cgd/lbfgs/quasi hand back
+   pstate for an invalid cstate; cgd/lbfgs/quasi return a valid state whenever the loop was entered *)
+Theorem C02_lsloop_status : forall orc cfg,
+  0 < C07_Defs.maxit (lc_prm cfg) -> forall fuel x0,
+  let r := ls_solver_run orc cfg fuel x0 in
+  let s := ls_result cfg r in
+  status_ok (sstatus s) /\
+  (sstatus s = ST_CONVERGED -> valid s = true /\ PrimFloat.ltb (gradient_test s) (lc_eps cfg) = true) /\
+  (sstatus s = ST_FAILED -> s = lr_c r /\ (lr_ok r = false \/ valid s = false)) /\
+  (sstatus s = ST_MAX_ITERS ->
+     valid s = true /\
+     (lr_exit r = EX_BUDGET \/ lr_exit r = EX_FUEL \/ (lc_body cfg <> BGd /\ valid (lr_c r) = false /\ s = lr_p r))) /\
+  (lc_body cfg <> BGd -> lr_exit r <> EX_INIT -> valid s = true).
+Proof. exact lsloop_status. Qed.
+Print Assumptions C02_lsloop_status.
+
+(* the translated kernels of the four solver bodies are what the proofs assume: the loop condition and which state the final
+   `return` hands back (fails when gd.cpp / cgd.cpp / lbfgs.cpp / quasi.cpp change) *)
+Theorem C02_lsloop_kernels :
+  (forall b fc gc m, loop_cond b fc gc m = (fc + gc <? m)) /\
+  (forall b v, ret_current b v = match b with BGd => true | _ => v end) /\
+  src_ret_gd = 1 /\ (forall v, src_ret_cgd v = if v then 1 else 0) /\
+  (forall v, src_ret_lbfgs v = if v then 1 else 0) /\ (forall v, src_ret_quasi v = if v then 1 else 0).
+Proof. split; [exact loop_cond_spec|]. split; [exact ret_current_spec|]. repeat split; intros []; reflexivity. Qed.
+Print Assumptions C02_lsloop_kernels.
+
+(* non-vacuity: runs that converge in the loop / before the loop, leave through the budget test after several accepted
+   iterates with a regular step and a smaller value, return a valid state on a bounded domain; and the trap behind the
+   refuted statement *)
+Example C02_nonvacuous_lsloop :
+  ex_show (ex_cfg BGd C07_Defs.Backtrack 128 100) (ex_run ex_parab (ex_cfg BGd C07_Defs.Backtrack 128 100) ex_zero)
+  = ([ex_one], ex_zero, ST_CONVERGED, (4, 4), 1, (true, false), EX_DONE) /\
+  (let r := ex_run ex_quartic (ex_cfg BGd C07_Defs.Lemarechal 128 12) ex_one in
+   lr_exit r = EX_BUDGET /\ sstatus (ls_result (ex_cfg BGd C07_Defs.Lemarechal 128 12) r) = ST_MAX_ITERS /\
+   2 <= lr_iters r /\ 12 <= lr_fc r + lr_gc r /\ lr_irreg r = false /\
+   PrimFloat.ltb (sfx (ls_result (ex_cfg BGd C07_Defs.Lemarechal 128 12) r)) ex_one = true) /\
+  (let c := ex_cfg BLbfgs C07_Defs.Backtrack 2 40 in let r := ex_run ex_box c ex_zero in
+   valid (ls_result c r) = true) /\
+  ex_show (ex_cfg BCgd C07_Defs.Fletcher 128 100) (ex_run ex_parab (ex_cfg BCgd C07_Defs.Fletcher 128 100) ex_one)
+  = ([ex_one], ex_zero, ST_CONVERGED, (1, 1), 0, (true, false), EX_INIT) /\
+  (let c := ex_cfg BGd C07_Defs.Backtrack 1 100 in let r := ex_run ex_trap c ex_zero in
+   sstatus (ls_result c r) = ST_CONVERGED /\ lr_ok r = false /\ PrimFloat.ltb ex_zero (sfx (ls_result c r)) = true) /\
+  0 < C07_Defs.maxit (lc_prm (ex_cfg BGd C07_Defs.Lemarechal 128 12)) /\
+  armijo_type (lc_alg (ex_cfg BGd C07_Defs.Lemarechal 128 12)) = true /\
+  PrimFloat.ltb PrimFloat.zero (C07_Defs.c1 (lc_prm (ex_cfg BGd C07_Defs.Lemarechal 128 12))) = true.
+Proof. split; [|split; [|split; [|split; [|split]]]]; try exact (proj1 s_examples); vm_compute; repeat split; try reflexivity; try discriminate. Qed.
